@@ -96,6 +96,8 @@ type vConn struct {
 	out         []byte
 	writes      int
 	failWriteAt int // Write calls after this many fail; <0: never
+	failWriteOnly int // > 0: exactly this Write call (1-based) fails, the others succeed
+	failedWrites  int
 	closed      int
 	readsAfterClose int
 	inner       *vConn // the plaintext side of the TLS model
@@ -105,6 +107,8 @@ type vConn struct {
 	stall       bool // when the input is used up the client goes silent (Read blocks) instead of closing
 	doneCh      chan struct{} // native runs only: closed by the first Close
 	onWriteFailure func()     // called when the first Write fails
+	trackDepth bool  // record the library's call-stack depth at every Read
+	depths     []int
 	// silent != "": the client has sent everything it will send and now waits
 	// for the server without closing; a Read that finds the input used up would
 	// block for ever, which is reported as a violation under this label
@@ -128,6 +132,9 @@ func vNewConn(data []byte) *vConn {
 }
 
 func (c *vConn) Read(p []byte) (int, error) {
+	if c.trackDepth {
+		c.depths = append(c.depths, vStackDepth())
+	}
 	if c.closed > 0 {
 		c.readsAfterClose++
 		return 0, net.ErrClosed
@@ -149,11 +156,16 @@ func (c *vConn) Write(p []byte) (int, error) {
 	if c.closed > 0 {
 		return 0, net.ErrClosed
 	}
+	if c.failWriteOnly > 0 && c.writes == c.failWriteOnly {
+		c.failedWrites++
+		return 0, errVerifIO
+	}
 	if c.failWriteAt >= 0 && c.writes > c.failWriteAt {
 		if !c.writeFailed && c.onWriteFailure != nil {
 			c.onWriteFailure()
 		}
 		c.writeFailed = true
+		c.failedWrites++
 		return 0, errVerifIO
 	}
 	c.out = append(c.out, p...)
